@@ -64,7 +64,7 @@ func verifC02Check(label string, mi *MetaInfo, d Digest, blob []byte, p int64) {
 func verifC02Blob() (Digest, []byte) {
 	d, err := NewSHA256DigestFromHex(verifC02Name)
 	verif.Assert("digest", err == nil)
-	n := verif.Len("blob_len", 0, verif.Bound("blob_len", 5, 9))
+	n := verif.Len("blob_len", 0, verif.Bound("blob_len", 5, 7))
 	return d, verif.Bytes("blob", n)
 }
 
